@@ -1,0 +1,15 @@
+//go:build verif
+
+package list
+
+// VerifInviteWrappedKeys returns, for every live invite, the read key wrapped
+// under the invite's public key as the state holds it (nil for invites that
+// need approval). Read-only snapshot for the runtime-monitoring harness: the
+// field is otherwise only observable by attempting a join through the invite.
+func VerifInviteWrappedKeys(st *AclState) map[string][]byte {
+	out := make(map[string][]byte, len(st.invites))
+	for id, inv := range st.invites {
+		out[id] = append([]byte(nil), inv.encryptedReadKey...)
+	}
+	return out
+}
